@@ -209,5 +209,6 @@ pub fn run(ctx: &mut Ctx) {
     ctx.prop_check("streams", n, stream_case_strategy(), |ctx, c| run_stream_case(ctx, c));
     let n = ctx.tier.pick(4_000u32, 100_000u32);
     ctx.prop_check("raw_bytes", n, raw_case_strategy(), |ctx, c| run_raw_case(ctx, c));
+    crate::fuzzing::corpus_check(ctx, "c05_stream");
     super::c05d::run_daemon_part(ctx);
 }
